@@ -600,6 +600,17 @@ Proof.
   pose proof (manifest_length okn show show_number fmt WF v d Hf). rewrite app_length. lia.
 Qed.
 
+(* two values never share a document, across formats and depths *)
+Corollary manifest_injective : forall fmt1 fmt2 v1 v2 d1 d2,
+  ws_format fmt1 -> ws_format fmt2 -> fin v1 -> fin v2 ->
+  manifest show fmt1 d1 v1 = manifest show fmt2 d2 v2 -> v1 = v2.
+Proof.
+  intros fmt1 fmt2 v1 v2 d1 d2 W1 W2 F1 F2 E.
+  pose proof (manifest_parse_roundtrip fmt1 v1 d1 W1 F1) as R1.
+  pose proof (manifest_parse_roundtrip fmt2 v2 d2 W2 F2) as R2.
+  rewrite E in R1. rewrite R1 in R2. injection R2 as ->. reflexivity.
+Qed.
+
 Corollary cli_default_roundtrip : forall v, ws_format fmt_manifest -> fin v ->
   decode read (cli_default show v) = Ok v.
 Proof.
